@@ -26,6 +26,13 @@ for f, fn in FN.items():
                             defs=["CNT=%d" % cnt], level="B", bound="data length %d octets; key length, failure ordinal and contents symbolic" % cnt,
                             unwind=80, spec_unwind=90, search=40000, split=True, timeout=1200, mem_gb=16, fn=[fn, "blobCreate", "blobClose"],
                             native_srcs=[s for s in BELT if not s.endswith("core/mem.c")] + ["../verif/stubs/mem_ghost.c"]))
+MORE = ["src/crypto/bels.c", "src/crypto/brng.c", "src/crypto/botp.c", "src/crypto/bash/bash_hash.c", "src/crypto/bash/bash_f.c",
+        "src/crypto/belt/belt_krp.c", "src/crypto/belt/belt_pbkdf.c", "src/crypto/belt/belt_hmac.c", "src/crypto/belt/belt_hash.c", "src/core/blob.c"]
+for ent, fns in (("h_bels", ["belsShare3", "belsShare2", "belsRecover2"]), ("h_kdf", ["beltKRP", "beltPBKDF2"]),
+                 ("h_rng_otp", ["brngCTRRand", "brngHMACRand", "botpHOTPRand", "bashHash"])):
+    GROUPS.append(G("hl2.%s.search" % ent[2:], "harness/C09/hl_more.c", ent, MORE, level="N", backend="native", search=60000, fn=fns,
+                    native_srcs=MORE + ["../verif/stubs/mem_ghost.c"],
+                    note="native run with allocation-failure injection and wipe tracking; NOT proof"))
 TRUSTED = ["stubs/mem_ghost.c: allocator contracts with ghost state (memAlloc / memFree / memWipe)", "stubs/belt_uf.c"]
 ASSUMPTIONS = ["errors that depend on number-theoretic verdicts are out of scope of these groups"]
-NOT_COVERED = ["bash, brng, botp, bels, bign, bign96, btok, bpki high-level functions", "scalar arguments other than key and data length (level, alphabet size: see C01 fmt.err)"]
+NOT_COVERED = ["bign, bign96, btok, bpki, bake high-level functions; bash/brng/botp/bels only natively (hl2.*)", "scalar arguments other than key and data length (level, alphabet size: see C01 fmt.err)"]
